@@ -1123,6 +1123,68 @@ Definition tr_tup_Encode_entry (err : bool) (k : (list N)) (v : (list N)) (out :
     go_call (tr_WriteBytes v out) (fun r__ => let '(out, err) := r__ in
     Next (out, err)))))))))).
 
+(* tars/protocol/tup/tup.go: func UniAttribute.Decode *)
+Definition tr_tup_Decode (fuel : nat) (rd : go_reader) (u_data : (list ((list N) * (list N)))) : ctl unit (go_reader * bool * (list ((list N) * (list N)))) :=
+  let have : bool := false in let ty : Z := 0 in let err : bool := false in
+    go_call (tr_SkipTo fuel k_codec_MAP 0 true rd) (fun r__ => let '(rd, _, err) := r__ in
+    bindc (if (negb (Bool.eqb err false))
+      then Return (rd, err, u_data)
+      else Next rd)
+    (fun rd : go_reader =>
+    let length : Z := 0 in
+    go_call (tr_ReadInt32 fuel length 0 true rd) (fun r__ => let '(rd, length, err) := r__ in
+    bindc (if (negb (Bool.eqb err false))
+      then Return (rd, err, u_data)
+      else Next rd)
+    (fun rd : go_reader =>
+    let e := length in
+    bindc (go_count 0 e (fun (i : Z) => fun st : go_reader * (list ((list N) * (list N))) * bool * Z * bool => let '(rd, u_data, have, ty, err) := st in
+      let k : (list N) := (@nil N) in
+      let v : (list N) := (@nil N) in
+      go_call (tr_ReadString fuel k 0 true rd) (fun r__ => let '(rd, k, err) := r__ in
+      bindc (if (negb (Bool.eqb err false))
+        then Return (rd, err, u_data)
+        else Next rd)
+      (fun rd : go_reader =>
+      go_call (tr_SkipToNoCheck fuel 1 true rd) (fun r__ => let '(rd, have, ty, err) := r__ in
+      bindc (if (negb (Bool.eqb err false))
+        then Return (rd, err, u_data)
+        else Next rd)
+      (fun rd : go_reader =>
+      bindc (if have
+        then bindc (if (ty =? k_codec_SimpleList)
+            then go_call (tr_SkipTo fuel k_codec_BYTE 0 true rd) (fun r__ => let '(rd, _, err) := r__ in
+              bindc (if (negb (Bool.eqb err false))
+                then Return (rd, err, u_data)
+                else Next rd)
+              (fun rd : go_reader =>
+              let byteLen : Z := 0 in
+              go_call (tr_ReadInt32 fuel byteLen 0 true rd) (fun r__ => let '(rd, byteLen, err) := r__ in
+              bindc (if (negb (Bool.eqb err false))
+                then Return (rd, err, u_data)
+                else Next rd)
+              (fun rd : go_reader =>
+              go_call (tr_ReadBytes v byteLen true rd) (fun r__ => let '(rd, v, err) := r__ in
+              bindc (if (negb (Bool.eqb err false))
+                then Return (rd, err, u_data)
+                else Next rd)
+              (fun rd : go_reader =>
+              let u_data := (go_smap_put u_data k v) in
+              Next (rd, u_data, err)))))))
+            else let err := true in
+              bindc (if (negb (Bool.eqb err false))
+                then Return (rd, err, u_data)
+                else Next rd)
+              (fun rd : go_reader =>
+              Next (rd, u_data, err)))
+          (fun st : go_reader * (list ((list N) * (list N))) * bool => let '(rd, u_data, err) := st in
+          Next (rd, u_data, err))
+        else Next (rd, u_data, err))
+      (fun st : go_reader * (list ((list N) * (list N))) * bool => let '(rd, u_data, err) := st in
+      Next (rd, u_data, have, ty, err))))))) (rd, u_data, have, ty, err))
+    (fun st : go_reader * (list ((list N) * (list N))) * bool * Z * bool => let '(rd, u_data, have, ty, err) := st in
+    Return (rd, err, u_data)))))).
+
 (* tars/transport/tarsclient.go: func connection.recv, statements "currBuffer = append(currBuffer, buffer[:n]...)" .. "for {" *)
 Definition tr_cli_recv_chunk (fuel : nat) (buffer : (list N)) (currBuffer : (list N)) (n : Z) (parse_package : list N -> Z * Z) (out : list (list N)) : ctl ((list (list N)) * (list N)) (list (list N) * unit) :=
   if (go_slice_ok buffer 0 n) then (let currBuffer := currBuffer ++ (go_slice buffer 0 n) in
